@@ -221,14 +221,20 @@ func denyExec(fn *ssa.Function) bool {
 	case "fmt", "os", "syscall", "runtime", "reflect", "log", "sync", "sync/atomic", "time", "math/big",
 		"crypto/hmac", "crypto/sha256", "crypto/sha1", "crypto/md5", "crypto/rand", "hash/crc32", "context",
 		"crypto/tls", "strconv", "unicode/utf8", "internal/bytealg", "math/rand", "encoding/hex", "encoding/base64",
-		"github.com/pion/logging", "github.com/pion/randutil", "crypto/subtle", "sort", "slices", "bufio":
+		"github.com/pion/logging", "github.com/pion/randutil", "crypto/subtle", "sort", "bufio":
 		return true
 	}
 	if p == "net" {
 		// a few pure helpers of package net are executed; everything else needs a stub
 		switch fn.Name() {
-		case "IPv4", "isZeros", "allFF", "bytesEqual":
+		case "IPv4", "isZeros", "allFF", "bytesEqual", "IPv4Mask", "CIDRMask":
 			return false
+		case "IsUnspecified", "IsLoopback", "IsPrivate", "IsMulticast", "IsInterfaceLocalMulticast", "IsLinkLocalMulticast",
+			"IsLinkLocalUnicast", "IsGlobalUnicast", "Mask", "DefaultMask":
+			// pure byte loops over a net.IP (they go through the To4/Equal stubs)
+			if r := fn.Signature.Recv(); r != nil && strings.HasSuffix(r.Type().String(), "net.IP") {
+				return false
+			}
 		case "Timeout", "Temporary", "Unwrap":
 			if r := fn.Signature.Recv(); r != nil && strings.Contains(r.Type().String(), "OpError") {
 				return false
@@ -236,11 +242,27 @@ func denyExec(fn *ssa.Function) bool {
 		}
 		return true
 	}
-	if p == "strings" || p == "bytes" {
+	if p == "bytes" {
+		switch fn.Name() {
+		case "HasPrefix", "HasSuffix", "TrimPrefix", "TrimSuffix", "Clone", "ContainsRune":
+			return false // thin wrappers around the stubbed bytes.Equal / plain slicing
+		}
+		return true
+	}
+	if p == "strings" {
 		return true
 	}
 	if p == "net/netip" {
-		return fn.Name() != "AddrPortFrom" // plain struct construction; everything else needs a stub
+		// value-level helpers run from SSA (the globals z0/z4/z6noz are given their identities by depGlobalInit);
+		// parsing, formatting and zones need unique.Make / strconv and stay unsupported
+		switch fn.Name() {
+		case "AddrPortFrom", "AddrFrom4", "AddrFrom16", "IPv4Unspecified", "IPv6Unspecified", "Addr", "Port", "IsValid", "Is4", "Is6",
+			"Is4In6", "Unmap", "As4", "As16", "AsSlice", "BitLen", "Compare", "Less", "IsUnspecified", "IsLoopback", "isZero", "v4",
+			"v6", "v6u16", "hasZone", "withoutZone", "IsMulticast", "IsPrivate", "IsLinkLocalUnicast", "IsGlobalUnicast",
+			"bitsSetFrom", "bitsClearedFrom", "halves", "isZero128", "and", "or", "xor", "not", "subOne", "addOne", "mask6":
+			return false
+		}
+		return true
 	}
 	if p == "io" {
 		switch fn.Name() {
